@@ -686,6 +686,12 @@ func RunParse(s z.ZogSchema, data any, destPtr reflect.Value, opts ...z.ExecOpti
 		return obsFromList(sc.Parse(data, destPtr.Interface().(*int), opts...))
 	case *z.NumberSchema[float64]:
 		return obsFromList(sc.Parse(data, destPtr.Interface().(*float64), opts...))
+	case *z.NumberSchema[int32]:
+		return obsFromList(sc.Parse(data, destPtr.Interface().(*int32), opts...))
+	case *z.NumberSchema[int64]:
+		return obsFromList(sc.Parse(data, destPtr.Interface().(*int64), opts...))
+	case *z.NumberSchema[float32]:
+		return obsFromList(sc.Parse(data, destPtr.Interface().(*float32), opts...))
 	case *z.BoolSchema[bool]:
 		return obsFromList(sc.Parse(data, destPtr.Interface().(*bool), opts...))
 	case *z.TimeSchema:
